@@ -193,7 +193,20 @@ Theorem C04_flat_variants_read_back :
 Proof. exact flat_variants_read_back. Qed.
 Print Assumptions C04_flat_variants_read_back.
 
+(* ... and every written variant is returned: for top-level variants that are not of type 'addon' (a top-level variant is read from
+   [variant-<uid>], an addon would have been written to [addon-<uid>]) and whose UIDs contain no comma (the [tree] variants list is
+   comma-separated).  With the theorem above: the variants read are exactly the variants written, fact by fact. *)
+Theorem C04_flat_variants_are_all_read_back :
+  forall x mv t x', ser_ti x mv = Ok t -> deser_ti t = Ok x' -> (forall kv, In kv (ti_variants x) -> flat kv) ->
+  (forall kv, In kv (ti_variants x) -> py_eq (getf (tv_fields (snd kv)) (F"type")) (PStr (F"addon")) = false) ->
+  (forall kv u, In kv (ti_variants x) -> getf (tv_fields (snd kv)) (F"uid") = PStr u -> ~ In c_comma u) ->
+  forall kv, In kv (ti_variants x) -> exists key v', In (key, v') (ti_variants x') /\ facts_of kv v'.
+Proof. exact flat_variants_complete. Qed.
+Print Assumptions C04_flat_variants_are_all_read_back.
+
 Example C04_flat_variants_nonvacuous :
   exists t x' v', ser_ti ex_ti None = Ok t /\ deser_ti t = Ok x' /\ (forall kv, In kv (ti_variants ex_ti) -> flat kv) /\
+    (forall kv, In kv (ti_variants ex_ti) -> py_eq (getf (tv_fields (snd kv)) (F"type")) (PStr (F"addon")) = false) /\
+    (forall kv u, In kv (ti_variants ex_ti) -> getf (tv_fields (snd kv)) (F"uid") = PStr u -> ~ In c_comma u) /\
     In (F"Server", v') (ti_variants x') /\ getf (tv_paths v') (F"packages") = PStr (F"Packages").
 Proof. exact flat_variants_nonvacuous. Qed.
